@@ -68,6 +68,7 @@ fn main() {
             if unit == "eval" {
                 let (bad, msg) = match v["function"].as_str().unwrap_or("") {
                     "cost_table" => eval::replay_cost(&v["input"]),
+                    "trusted_paths_ground" => eval::replay_trusted(&v["input"]),
                     "pos_v2_hash" => eval::replay_pos(&v["input"]),
                     "datalayer_ground" => eval::replay_datalayer(&v["input"]),
                     "bls_cache_ground" => eval::replay_bls(&v["input"]),
